@@ -11,10 +11,10 @@ established for **all rational inputs**:
                      pinned source; M >= N is harmless by theorem `C14_bound_ge`);
   * `ext_segbound`   the quantity handed to `math.ceil` equals `(e - s) / hop` (so N stands for the
                      model's `bound`), and the rounding is `ceil`;
-  * `ext_segname_*`  the name handed to `uuid.uuid5` is `segment_clip:<parent>:<x>:<y>` in the package
-                     namespace where x, y are *formatted from* numbers equal to the segment's own start
-                     and end on every path (model: `segName`); the recording of every yielded clip is the
-                     parent's.
+  * `ext_segname_*`  the uuid of every yielded clip is `uuid5(package namespace, name)` with name =
+                     `segment_clip:<parent>:<x>:<y>`, where x, y are plainly *formatted from* numbers that
+                     equal the segment's own start and end on every path (model: `segName`); the recording
+                     of every yielded clip is the parent's.
 
 What remains trusted: the semantics of Python's `for … in range(n)` (the body traced for n = 0 … 3 is the
 body executed for every n), `math.ceil` itself, `uuid.uuid5`, and the float formatting (`fmt` of the model;
@@ -23,7 +23,6 @@ its injectivity / colon-freeness is monitored on every observed value).
 The stubs observe behaviour, not names: whatever global of `soundevent.operations` *is* the
 `soundevent.data` module or the `Clip` class is replaced by a recorder while tracing.
 """
-import re
 import uuid as _uuid
 
 from . import symtrace as st
@@ -32,7 +31,7 @@ from .symtrace import Sym
 
 PARENT = "7d2e9a4c-1111-4a6b-9c3d-000000000001"
 
-_STATE = {"oracle": 0, "rounds": None, "fmt": None, "names": None}
+_STATE = {"oracle": 0, "rounds": None, "fmt": None}
 
 
 class ISym(Sym):
@@ -67,6 +66,8 @@ class ISym(Sym):
     def __trunc__(self): return self._round("trunc")
     def __int__(self): return self._round("trunc")
     def __round__(self, nd=None): return self._round("round")
+    def ceil(self): return self._round("ceil")          # numpy's ufuncs on object scalars call these
+    def floor(self): return self._round("floor")
 
     # formatting: a marker that names the formatted number
     def _mark(self, spec=""):
@@ -107,13 +108,12 @@ class _DataProxy:
 
 
 class Leaf:
-    def __init__(self, segs, rounds, fmt, names):
-        self.segs, self.rounds, self.fmt, self.names = segs, rounds, fmt, names
+    def __init__(self, segs, rounds, fmt):
+        self.segs, self.rounds, self.fmt = segs, rounds, fmt
 
 
 class _Patched:
-    """replace, by identity, the data module / Clip class reachable from the traced module's globals and
-    wrap the standard library's uuid5 so that the name it is called with is observed"""
+    """replace, by identity, the data module / Clip class reachable from the traced module's globals"""
 
     def __init__(self, mod):
         self.mod = mod
@@ -134,18 +134,9 @@ class _Patched:
             elif v is data.Clip:
                 self.saved[k] = v
                 setattr(self.mod, k, RecClip)
-        self.real_uuid5 = _uuid.uuid5
-
-        def uuid5(namespace, name):
-            u = self.real_uuid5(namespace, name)
-            if _STATE["names"] is not None:
-                _STATE["names"][u] = (namespace, name)
-            return u
-        _uuid.uuid5 = uuid5
         return self
 
     def __exit__(self, *a):
-        _uuid.uuid5 = self.real_uuid5
         for k, v in self.saved.items():
             setattr(self.mod, k, v)
         return False
@@ -170,14 +161,14 @@ def make_thunk(ops_mod, recording, incl, hop_none, oracle):
     s, e, dur, hop = [ISym.var(n) for n in V]
 
     def thunk():
-        _STATE.update(oracle=oracle, rounds=[], fmt=[], names={})
+        _STATE.update(oracle=oracle, rounds=[], fmt=[])
         try:
             clip = _parent_clip(s, e, recording)
             kw = {} if hop_none else {"hop": hop}
             segs = list(ops_mod.segment_clip(clip, duration=dur, include_incomplete=incl, **kw))
-            return Leaf(segs, list(_STATE["rounds"]), list(_STATE["fmt"]), dict(_STATE["names"]))
+            return Leaf(segs, list(_STATE["rounds"]), list(_STATE["fmt"]))
         finally:
-            _STATE.update(rounds=None, fmt=None, names=None)
+            _STATE.update(rounds=None, fmt=None)
     return thunk
 
 
@@ -192,8 +183,6 @@ def _leaves(tree):
 def _pairs_lean(pairs):
     return "some [" + ", ".join(f"({symx.num(a)}, {symx.num(b)})" for a, b in pairs) + "]"
 
-
-_NAME_RE = re.compile(r"^segment_clip:(.*):⟦(\d+)⟧:⟦(\d+)⟧$")
 
 TACTIC = ("unfold {name} SE.Segment.segmentClipWith\n"
           "  simp only [SE.Segment.loop, Except.toOption]\n"
@@ -237,22 +226,29 @@ def register(ctx, ops_mod, namespace, recording, oracles):
                 model = (f"(SE.Segment.segmentClipWith (fun _ _ _ => {m}) s e dur {hop_term} "
                          f"{'true' if incl else 'false'}).toOption")
                 ctx.obligation(name, symx.tie(name, src, V, model, tactic=TACTIC.format(name=name)), meta)
-                if m < n:
-                    problems.append((name, meta, f"with ceil(..) = {n} the loop makes only {m} iterations"))
-                # the rounding the loop bound comes from
+                # the rounding the loop bound comes from: exactly one rounding of (e - s) / hop per path that
+                # reaches the loop; with `ceil` the code must make at least N iterations, with floor / int /
+                # round at least N + 1 (then its bound is >= ceil(duration / hop) and C14_bound_ge applies)
                 for lf in oks:
                     kinds = [k for k, _x in lf.rounds]
-                    if len(lf.rounds) == 1 and kinds == ["ceil"]:
-                        x = lf.rounds[0][1]
-                        bound_exprs.setdefault((x.e, hop_term), meta)
-                    elif lf.rounds or n > 0 or lf.segs:
-                        problems.append((name, meta, f"loop bound is not one math.ceil of a quotient: rounds={kinds}"))
+                    if not lf.rounds:
+                        continue                     # a path that never reaches the loop bound (guards, fast paths)
+                    if len(lf.rounds) != 1:
+                        problems.append((name, meta, f"loop bound is not one rounding of a quotient: rounds={kinds}"))
+                        break
+                    bound_exprs.setdefault((lf.rounds[0][1].e, hop_term), meta)
+                    need = n if kinds[0] == "ceil" else n + 1
+                    if m < need:
+                        problems.append((name, meta, f"with {kinds[0]}(duration / hop) = {n} the loop makes only {m} "
+                                                     f"iterations: the bound is below ceil(duration / hop)"))
                         break
                 # names, namespace, recording: on every path
                 try:
                     name_src = _name_obligation(f"ext_segname_{tag}", tree, oks, namespace, recording, model)
-                except _NameProblem as ex:
-                    problems.append((f"ext_segname_{tag}", {**meta, "op": "id_classes"}, str(ex)))
+                except InfraError:
+                    raise
+                except Exception as ex:  # noqa: BLE001 - incl. _NameProblem: the identifier tie is not re-established
+                    problems.append((f"ext_segname_{tag}", {**meta, "op": "id_classes"}, str(ex) or repr(ex)))
                 else:
                     ctx.symbolic_ties[f"ext_segname_{tag}"] = {"paths": len(res)}
                     ctx.obligation(f"ext_segname_{tag}", name_src, {**meta, "op": "id_classes"})
@@ -276,22 +272,26 @@ class _NameProblem(Exception):
 def _name_obligation(name, tree, oks, namespace, recording, model):
     """every yielded clip: recording is the parent's; uuid = uuid5(package namespace, 'segment_clip:<parent>:
     <fmt x>:<fmt y>'); emitted: the list of (x, y) per path, to be proved equal to the model's windows"""
+    if not isinstance(namespace, _uuid.UUID):
+        raise _NameProblem("the package's uuid namespace constant was not found")
     per_leaf = {}
     for lf in oks:
         pairs = []
         for g in lf.segs:
             if getattr(g, "recording", None) is not recording:
                 raise _NameProblem("a yielded clip does not carry the parent's recording object")
-            rec = lf.names.get(getattr(g, "uuid", None))
-            if rec is None:
-                raise _NameProblem("the uuid of a yielded clip does not come from uuid.uuid5 (or uuid5 was not observable)")
-            ns, nm = rec
-            if ns != namespace:
-                raise _NameProblem("uuid5 is not taken in the package namespace")
-            mt = _NAME_RE.match(nm) if isinstance(nm, str) else None
-            if not mt or mt.group(1) != PARENT:
-                raise _NameProblem(f"name is not 'segment_clip:<parent uuid>:<start>:<end>' with plainly formatted numbers: {nm!r}")
-            pairs.append((lf.fmt[int(mt.group(2))], lf.fmt[int(mt.group(3))]))
+            hit = None
+            for i in range(len(lf.fmt)):
+                for j in range(len(lf.fmt)):
+                    if _uuid.uuid5(namespace, f"segment_clip:{PARENT}:⟦{i}⟧:⟦{j}⟧") == getattr(g, "uuid", None):
+                        hit = (i, j)
+                        break
+                if hit:
+                    break
+            if hit is None:
+                raise _NameProblem("the uuid of a yielded clip is not uuid5(package namespace, 'segment_clip:<parent uuid>:<x>:<y>') "
+                                   "for plainly formatted numbers x, y")
+            pairs.append((lf.fmt[hit[0]], lf.fmt[hit[1]]))
         per_leaf[id(lf)] = pairs
     body = symx.emit(tree, lambda v: _pairs_lean(per_leaf[id(v)]), indent=4)
     src = f"def {name} (s e dur hop : Rat) : Option (List (Rat × Rat)) :=\n  {body}"
